@@ -41,7 +41,7 @@ Step(e) ==
             ELSE maybeF' = [maybeF EXCEPT ![e.doc] = @ \cup {e.w}] /\ UNCHANGED maybeU
          /\ crashedAt' = e.at /\ UNCHANGED <<user, file, baseline>>
     [] e.ev \in {"Restart", "Moved"} -> Unch
-    \* after the user dictionary has moved, nothing may appear at its old place
+    \* DictPath.tla (SavedWhereConfigured): after the user dictionary has moved, nothing may appear at its old place
     [] e.ev = "Stray" -> Unch /\ IF e.exists THEN PrintT(<<"REJECT", l, "word-stored-where-no-dictionary-is-configured", "">>) ELSE TRUE
     \* FileDictName.tla: Fits and Distinct for the two documents of a long-path session
     [] e.ev = "Deep" ->
